@@ -452,7 +452,7 @@ func getString(_token Token) (out pr.ContentProperty) {
 	case pa.String:
 		return pr.ContentProperty{Type: "string", Content: pr.String(token.Value)}
 	case pa.FunctionBlock:
-		switch token.Name {
+		switch utils.AsciiLower(token.Name) {
 		case "attr":
 			attr := checkAttrFunction(token, "string")
 			if attr.IsNone() {
